@@ -110,6 +110,12 @@ func (r *rewriter) block(list []ast.Stmt) []ast.Stmt {
 			site := fmt.Sprintf("%s:%s:go#%d", r.file, r.fn, r.count["go"])
 			r.skel = append(r.skel, "go")
 			r.changed = true
+			// the body of `go func() { … }()` belongs to the function being instrumented
+			if fl, ok := g.Call.Fun.(*ast.FuncLit); ok {
+				r.skel = append(r.skel, "{")
+				fl.Body.List = r.block(fl.Body.List)
+				r.skel = append(r.skel, "}")
+			}
 			s = &ast.ExprStmt{X: &ast.CallExpr{
 				Fun: &ast.SelectorExpr{X: ast.NewIdent("cosched"), Sel: ast.NewIdent("Go")},
 				Args: []ast.Expr{
